@@ -131,40 +131,171 @@ Proof.
     clear Hmax.
     assert (Hb : (if 0 <=? e then Z.pos m * 2 ^ e else Z.pos m / 2 ^ (- e)) < 2 ^ 31).
     { destruct (e ?= -21) eqn:Ee.
-      - apply Z.compare_eq in Ee. subst e. cbn [Z.leb Z.compare Z.opp].
-        change (Pos.compare_cont Eq m 4503599627370496) with (m ?= 4503599627370496)%positive in Hmin.
-        destruct (m ?= 4503599627370496)%positive eqn:Em; cbn [CompOpp] in Hmin; try discriminate.
-        rewrite Pos.compare_lt_iff in Em.
-        apply Z.div_lt_upper_bound; [reflexivity|]. change (2 ^ 21 * 2 ^ 31) with 4503599627370496. lia.
+      - apply Z.compare_eq in Ee. subst e.
+        destruct (Pos.compare_cont Eq m 4503599627370496) eqn:Em; cbn [CompOpp] in Hmin; try discriminate.
+        assert (Em' : (m < 4503599627370496)%positive) by exact Em. clear Em.
+        replace (0 <=? -21) with false by reflexivity. replace (- -21) with 21 by reflexivity.
+        apply Z.div_lt_upper_bound; [reflexivity|]. change (2 ^ 21 * 2 ^ 31) with 4503599627370496. exact Em'.
       - rewrite Z.compare_lt_iff in Ee. destruct (Z.leb_spec 0 e); [lia|].
         apply div_pow_small; lia.
       - discriminate. }
     assert (H0 : 0 <= (if 0 <=? e then Z.pos m * 2 ^ e else Z.pos m / 2 ^ (- e))).
-    { destruct (0 <=? e).
+    { destruct (Z.leb_spec 0 e).
       - apply Z.mul_nonneg_nonneg; [lia|]. apply Z.pow_nonneg. lia.
-      - apply Z.div_pos; [lia|]. destruct (Z.le_gt_cases 0 (- e)).
-        + apply Z.pow_pos_nonneg; lia.
-        + (* unreachable branch shape, still provable *) rewrite Z.pow_neg_r by lia. lia. }
+      - apply Z.div_pos; [lia|]. apply Z.pow_pos_nonneg; lia. }
     change (2 ^ 31) with 2147483648 in Hb.
     apply andb_true_iff; split; [apply Z.leb_le|apply Z.leb_le]; lia.
   - (* non-negative *)
     clear Hmin.
     assert (Hb : (if 0 <=? e then Z.pos m * 2 ^ e else Z.pos m / 2 ^ (- e)) < 2147483647).
     { destruct (-22 ?= e) eqn:Ee.
-      - apply Z.compare_eq in Ee. subst e. cbn [Z.leb Z.compare Z.opp].
-        change (Pos.compare_cont Eq 9007199250546688 m) with (9007199250546688 ?= m)%positive in Hmax.
-        destruct (9007199250546688 ?= m)%positive eqn:Em; try discriminate.
-        rewrite Pos.compare_gt_iff in Em.
-        apply Z.div_lt_upper_bound; [reflexivity|]. change (2 ^ 22 * 2147483647) with 9007199250546688. lia.
+      - apply Z.compare_eq in Ee. subst e.
+        destruct (Pos.compare_cont Eq 9007199250546688 m) eqn:Em; try discriminate.
+        assert (Em' : (m < 9007199250546688)%positive) by (apply Pos.compare_gt_iff; exact Em). clear Em.
+        replace (0 <=? -22) with false by reflexivity. replace (- -22) with 22 by reflexivity.
+        apply Z.div_lt_upper_bound; [reflexivity|]. change (2 ^ 22 * 2147483647) with 9007199250546688. exact Em'.
       - discriminate.
       - rewrite Z.compare_gt_iff in Ee. destruct (Z.leb_spec 0 e); [lia|].
         pose proof (div_pow_small (Z.pos m) (- e) 30 ltac:(lia) ltac:(lia) ltac:(lia)) as H30.
         change (2 ^ 30) with 1073741824 in H30. lia. }
     assert (H0 : 0 <= (if 0 <=? e then Z.pos m * 2 ^ e else Z.pos m / 2 ^ (- e))).
-    { destruct (0 <=? e).
+    { destruct (Z.leb_spec 0 e).
       - apply Z.mul_nonneg_nonneg; [lia|]. apply Z.pow_nonneg. lia.
-      - apply Z.div_pos; [lia|]. destruct (Z.le_gt_cases 0 (- e)).
-        + apply Z.pow_pos_nonneg; lia.
-        + rewrite Z.pow_neg_r by lia. lia. }
+      - apply Z.div_pos; [lia|]. apply Z.pow_pos_nonneg; lia. }
     apply andb_true_iff; split; [apply Z.leb_le|apply Z.leb_le]; lia.
 Qed.
+
+(** * The contract on the C library *)
+
+(** [int15 d]: d is an integer of magnitude below 10^15 (as a C comparison: d == (double) z) *)
+Definition int15 (d : dbl) : Prop := exists z, Z.abs z < 10 ^ 15 /\ deq d (dbl_of_int z) = true.
+
+(** What C04 assumes about strtod, sprintf "%d" / "%1.15g" / "%1.17g" and sscanf "%lg".
+    Every clause is a fact about the C library alone (no cJSON code involved), is used by a
+    named step of [number_roundtrip], and is evaluated on a table of boundary doubles with the
+    reference implementations in RoundTripEvidence.v. *)
+Record LibcRoundTripSpec (strtod : bytes -> option (dbl * nat)) (fmt_d : Z -> bytes)
+       (fmt_g15 fmt_g17 : dbl -> bytes) (sscanf_lg : bytes -> option dbl) : Prop := {
+  (* S: sscanf "%lg" and strtod are the same conversion *)
+  lr_scan : forall t d, sscanf_lg t = Some d <-> exists k, strtod t = Some (d, k);
+  (* V: what strtod returns is a double (a well-formed SpecFloat value) *)
+  lr_valid : forall t d k, strtod t = Some (d, k) -> dbl_ok d;
+  (* N2: "%d" of an int reads back as exactly (double) of that int *)
+  lr_d : forall z, int_range z = true -> exists k, strtod (fmt_d z) = Some (dbl_of_int z, k);
+  (* N3: 17 significant digits identify a double (IEEE 754 round trip) *)
+  lr_g17 : forall d, is_finite d = true -> dbl_ok d -> exists k, strtod (fmt_g17 d) = Some (d, k);
+  (* N4: 15 significant digits survive decimal -> double -> decimal (DBL_DIG = 15) *)
+  lr_g15_stable : forall d t k, is_finite d = true ->
+      strtod (fmt_g15 d) = Some (t, k) -> is_finite t = true -> fmt_g15 t = fmt_g15 d;
+  (* N4z: reading back "%1.15g" of a nonzero double does not underflow to zero *)
+  lr_g15_nonzero : forall d t k, is_finite d = true ->
+      strtod (fmt_g15 d) = Some (t, k) -> is_zero t = true -> is_zero d = true;
+  (* N5a: "%1.15g" of (double) of an int is what "%d" prints for that int *)
+  lr_g15_int : forall z, int_range z = true -> fmt_g15 (dbl_of_int z) = fmt_d z;
+  (* N5b: "%1.15g" of an integer below 10^15 reads back exactly *)
+  lr_g15_exact : forall z, Z.abs z < 10 ^ 15 ->
+      exists k, strtod (fmt_g15 (dbl_of_int z)) = Some (dbl_of_int z, k)
+}.
+
+(** * One number through print_number and parse_number *)
+Section Number.
+  Variable strtod : bytes -> option (dbl * nat).
+  Variable fmt_d : Z -> bytes.
+  Variable fmt_g15 fmt_g17 : dbl -> bytes.
+  Variable sscanf_lg : bytes -> option dbl.
+  Hypothesis R : LibcRoundTripSpec strtod fmt_d fmt_g15 fmt_g17 sscanf_lg.
+
+  Notation number_text := (number_text fmt_d fmt_g15 fmt_g17 sscanf_lg).
+
+  (** the double parse_number stores for a literal (as in [Grammar.tree_of]) *)
+  Definition read_back (t : bytes) : dbl :=
+    match strtod t with Some (d, _) => d | None => dzero end.
+
+  Lemma read_back_eq t d k : strtod t = Some (d, k) -> read_back t = d.
+  Proof. unfold read_back. intros ->. reflexivity. Qed.
+
+  Lemma int_of_ok d : dbl_ok d -> int_range (sat_int d) = true.
+  Proof. apply sat_int_range. Qed.
+
+  (** re-printing a double that print_number printed with 15 digits *)
+  Lemma reprint_g15 d t k : is_finite d = true -> is_zero d = false ->
+    strtod (fmt_g15 d) = Some (t, k) -> compare_double t d = true ->
+    number_text (sat_int t) t = fmt_g15 d.
+  Proof.
+    intros Hd Hnz Hs Hc.
+    pose proof (compare_double_finite_l t d Hc Hd) as Ht.
+    pose proof (lr_g15_stable _ _ _ _ _ R d t k Hd Hs Ht) as Hst.
+    pose proof (lr_valid _ _ _ _ _ R _ _ _ Hs) as Hv.
+    assert (Hsc : sscanf_lg (fmt_g15 d) = Some t) by (apply (lr_scan _ _ _ _ _ R); exists k; exact Hs).
+    unfold PrintDefs.number_text. rewrite (finite_nan_inf t Ht).
+    destruct (deq t (dbl_of_int (sat_int t))) eqn:E2.
+    - destruct (deq_true_cases _ _ E2) as [E | [Zt _]].
+      + rewrite <- (lr_g15_int _ _ _ _ _ R (sat_int t) (int_of_ok t Hv)). rewrite <- E. exact Hst.
+      + rewrite (lr_g15_nonzero _ _ _ _ _ R d t k Hd Hs Zt) in Hnz. discriminate.
+    - rewrite Hst, Hsc. rewrite (compare_double_refl t (finite_not_nan t Ht)). reflexivity.
+  Qed.
+
+  Theorem number_roundtrip vi d :
+    is_finite d = true -> dbl_ok d -> vi = sat_int d ->
+    let d' := read_back (number_text vi d) in
+    is_finite d' = true /\ dbl_ok d' /\
+    compare_double d' d = true /\
+    (int15 d -> deq d' d = true) /\
+    number_text (sat_int d') d' = number_text vi d.
+  Proof.
+    intros Hf Hv Hvi. cbv zeta.
+    pose proof (int_of_ok d Hv) as Hr. rewrite <- Hvi in Hr.
+    destruct (deq d (dbl_of_int vi)) eqn:Eint.
+    - (* the %d branch *)
+      assert (Htxt : number_text vi d = fmt_d vi).
+      { unfold PrintDefs.number_text. rewrite (finite_nan_inf d Hf), Eint. reflexivity. }
+      rewrite Htxt.
+      destruct (lr_d _ _ _ _ _ R vi Hr) as [k Hk]. rewrite (read_back_eq _ _ _ Hk).
+      assert (Hf' : is_finite (dbl_of_int vi) = true).
+      { destruct (deq_true_cases _ _ Eint) as [E | [_ Z]]; [rewrite <- E; exact Hf|apply is_zero_finite; exact Z]. }
+      assert (Hs' : sat_int (dbl_of_int vi) = vi).
+      { destruct (deq_true_cases _ _ Eint) as [E | [Zd Z]].
+        - rewrite <- E. symmetry. exact Hvi.
+        - rewrite (sat_int_zero _ Z). rewrite Hvi. symmetry. apply sat_int_zero. exact Zd. }
+      split; [exact Hf'|]. split; [exact (lr_valid _ _ _ _ _ R _ _ _ Hk)|].
+      split; [apply deq_compare_double; [exact Hf'|rewrite deq_sym; exact Eint]|].
+      split; [intros _; rewrite deq_sym; exact Eint|].
+      unfold PrintDefs.number_text. rewrite (finite_nan_inf _ Hf'). rewrite Hs'.
+      rewrite (deq_refl_finite _ Hf'). reflexivity.
+    - (* not an int *)
+      assert (Hnz : is_zero d = false).
+      { destruct (is_zero d) eqn:Z; [|reflexivity].
+        rewrite Hvi in Eint. rewrite (zero_is_int d Z) in Eint. discriminate. }
+      assert (G17 : number_text vi d = fmt_g17 d ->
+                let d' := read_back (fmt_g17 d) in
+                is_finite d' = true /\ dbl_ok d' /\ compare_double d' d = true /\ (int15 d -> deq d' d = true) /\
+                number_text (sat_int d') d' = fmt_g17 d).
+      { intro Htxt. destruct (lr_g17 _ _ _ _ _ R d Hf Hv) as [k Hk]. cbv zeta. rewrite (read_back_eq _ _ _ Hk).
+        split; [exact Hf|]. split; [exact Hv|].
+        split; [apply compare_double_refl, finite_not_nan, Hf|]. split; [intros _; apply deq_refl_finite, Hf|].
+        rewrite <- Hvi. exact Htxt. }
+      destruct (sscanf_lg (fmt_g15 d)) as [test|] eqn:Es.
+      + destruct (compare_double test d) eqn:Ec.
+        * (* 15 digits *)
+          assert (Htxt : number_text vi d = fmt_g15 d).
+          { unfold PrintDefs.number_text. rewrite (finite_nan_inf d Hf), Eint, Es, Ec. reflexivity. }
+          rewrite Htxt.
+          destruct (proj1 (lr_scan _ _ _ _ _ R _ _) Es) as [k Hk]. rewrite (read_back_eq _ _ _ Hk).
+          split; [exact (compare_double_finite_l _ _ Ec Hf)|].
+          split; [exact (lr_valid _ _ _ _ _ R _ _ _ Hk)|].
+          split; [exact Ec|]. split.
+          -- intros [z [Hz Ez]]. destruct (deq_true_cases _ _ Ez) as [E | [Zd _]].
+             ++ destruct (lr_g15_exact _ _ _ _ _ R z Hz) as [k' Hk']. rewrite <- E in Hk'.
+                rewrite Hk in Hk'. injection Hk' as Et _. rewrite Et. apply deq_refl_finite, Hf.
+             ++ rewrite Zd in Hnz. discriminate.
+          -- exact (reprint_g15 d test k Hf Hnz Hk Ec).
+        * (* 17 digits: the 15-digit text does not compare equal *)
+          assert (Htxt : number_text vi d = fmt_g17 d).
+          { unfold PrintDefs.number_text. rewrite (finite_nan_inf d Hf), Eint, Es, Ec. reflexivity. }
+          rewrite Htxt. exact (G17 Htxt).
+      + (* 17 digits: sscanf failed *)
+        assert (Htxt : number_text vi d = fmt_g17 d).
+        { unfold PrintDefs.number_text. rewrite (finite_nan_inf d Hf), Eint, Es. reflexivity. }
+        rewrite Htxt. exact (G17 Htxt).
+  Qed.
+End Number.
